@@ -152,7 +152,19 @@ def routing(confdir):
         if f1 is not f2:
             d = ['unsupported', 'new finder instance on every call']
         finders.append([t, d])
-        getters.append([t, describe_getter(conf.get_getter_for(x)), describe_getter(conf.get_getter_for(x, attribute='next.version'))])
+        import importlib
+        dm = importlib.reload(sys.modules['spil_data_conf'])       # fresh module state for every probe
+        g1 = describe_getter(dm.get_getter_for(x))
+        g2 = describe_getter(dm.get_getter_for(x))
+        g3 = describe_getter(dm.get_getter_for(x, attribute='next.version'))
+        for other in types[:3]:
+            y = Sid(from_factory=True)
+            y._init(string='x', type=other, fields={'k': 'v'})
+            dm.get_getter_for(y)
+        g4 = describe_getter(dm.get_getter_for(x))
+        if g2 != g1 or g4 != g1:
+            g1 = ['unsupported: get_getter_for depends on earlier calls (%r then %r / %r)' % (g1, g2, g4)]
+        getters.append([t, g1, g3])
     from pathlib import Path
     battery = ['/r/a/b.ma', '/r/a/b', '/r/a/b.c.d', '/r/a/.b', '/r/a/b.', '/r/x_y_v001.abc']
     sidecars = [[p, str(conf.get_data_json_path(Path(p)))] for p in battery]
